@@ -386,9 +386,11 @@ def load(
         if pck is None or len(pck) not in (16, 32):
             raise Sb31Reject("device-has-no-pck", "decryption requested without a 128/256-bit PCK")
         kdk = derive_kdk(bytes(pck), timestamp, kdk_access_rights, key_bits)
+    # pass 1: the hash chain from block 0 (a loader streams - hash, then decrypt - block by block; the
+    # verdict is the same, doing the cheap pass first only keeps bit-flip sweeps affordable)
     expected = data[MANIFEST_SIZE: MANIFEST_SIZE + hl]
-    stream = bytearray()
     off = first
+    payloads = []
     for i in range(1, block_count + 1):
         blk = data[off: off + block_size]
         if hashlib.new(hname, blk).digest() != expected:
@@ -397,14 +399,17 @@ def load(
         if number != i:
             raise Sb31Reject("block-number", f"block {i} is numbered {number}")
         expected = blk[4: 4 + hl]
-        payload = blk[4 + hl:]
-        if encrypted:
-            payload = modes.cbc_decrypt(derive_block_key(kdk, i, kdk_access_rights, key_bits), bytes(16), payload)
-        stream += payload
+        payloads.append(blk[4 + hl:])
         regions.append((f"block{i}_number", off, off + 4))
         regions.append((f"block{i}_next_hash", off + 4, off + 4 + hl))
         regions.append((f"block{i}_payload", off + 4 + hl, off + block_size))
         off += block_size
+    # pass 2: decryption
+    stream = bytearray()
+    for i, payload in enumerate(payloads, start=1):
+        if encrypted:
+            payload = modes.cbc_decrypt(derive_block_key(kdk, i, kdk_access_rights, key_bits), bytes(16), payload)
+        stream += payload
     last_next_hash = expected
     stream = bytes(stream)
 
